@@ -132,6 +132,7 @@ pub struct ScriptBus {
     /// model position name at each reply (for the coverage matrix)
     pub positions: Vec<&'static str>,
     pub divergence: Option<(usize, String)>,
+    pub stop_at_divergence: bool,
 }
 
 impl ScriptBus {
@@ -148,6 +149,7 @@ impl ScriptBus {
             expect: None,
             positions: vec![],
             divergence: None,
+            stop_at_divergence: false,
         }
     }
 
@@ -168,6 +170,11 @@ impl SignBus for ScriptBus {
                 Some(Step::Emit(e)) => self.divergence = Some((depth, format!("emitted {} where the protocol prescribes {}", got.show(), e.show()))),
                 Some(Step::Done(o)) => self.divergence = Some((depth, format!("emitted {} although the protocol had finished with {:?}", got.show(), o))),
                 None => {}
+            }
+            if self.divergence.is_some() && self.stop_at_divergence {
+                // the conversation has left the protocol: end it (bus error from here on) instead of exploring the
+                // reply tree of a controller that is no longer following any script we can compare against
+                self.max_messages = depth;
             }
         }
         let (reply, sym) = if depth >= self.max_messages {
@@ -224,12 +231,13 @@ impl Conversation {
 }
 
 /// Runs `op` on a real `Sign` talking to a `ScriptBus`; the reference machine runs inside the bus.
-pub fn converse(op: &Op, own: u16, foreign: u16, ty: usize, pages: &[Page<'static>], script: Vec<u16>, max_messages: usize, pick: Box<dyn FnMut(usize) -> u16>) -> Conversation {
+pub fn converse(op: &Op, own: u16, foreign: u16, ty: usize, pages: &[Page<'static>], script: Vec<u16>, max_messages: usize, pick: Box<dyn FnMut(usize) -> u16>, stop_at_divergence: bool) -> Conversation {
     let images: Vec<Vec<u8>> = pages.iter().map(|p| p.as_bytes().to_vec()).collect();
     let block = TYPES[ty].ty.to_bytes().to_vec();
     let model = RefCtl::new(op.clone(), own, &block, &images);
     let mut sb = ScriptBus::new(alphabet(own, foreign), script, max_messages).with_model(model);
     sb.pick = pick;
+    sb.stop_at_divergence = stop_at_divergence;
     let bus = Rc::new(RefCell::new(sb));
     let sign = mk_sign(bus.clone(), own, ty);
     let out = run_op(&sign, op, pages);
